@@ -46,7 +46,7 @@ CLAIM = dict(
     "the regularisation parameter L scaled along - with fixed L its unconverged iterates are not homogeneous: known finding); constant "
     "weight; first-moment bound (also proved, see above); 1-D and thin n x 1 (x 1) grids against the closed form for every method x mobility x L1 mode; "
     "front-end = back-end; EMD single-cell moves, symmetry, scaling, first-moment bound.",
-    note="Round 5: for DEFAULT-L Bregman the sentence 'scales linearly when both masses are multiplied' is NOT enforced beyond the two bounded known "
+    note="Round 7 (false-alarm direction): failing inputs are claimed only for stated clauses (raises on in-quantifier inputs, first moment, thin closed form, identical -> 0, swap, scaling, constant weight, below the certified minimum, front-end != back-end beyond 1e-9, rule facts, EMD laws, zero / non-finite distance at extreme scales); everything derived from info['flux'], the dispatch spy, rule identity, option variants, EMD series are TIE-BROKEN marks, oracle exceptions HARNESS marks, input modification / preprocess / amg-cg extreme-scale deviations observations; known-finding percentages are gross-error backstops. Round 5: for DEFAULT-L Bregman the sentence 'scales linearly when both masses are multiplied' is NOT enforced beyond the two bounded known "
     "signatures (unconverged <= 100 %, flagged-converged <= 15 %); it is enforced exactly under joint scaling of (masses, L, regularization), for "
     "Newton with all options fixed (1e-5), on thin grids, and weight-only scaling (all options fixed) for Newton and Bregman (1e-5, measured 1e-15). "
     "For RAVIART_THOMAS the certified lower bound is the midpoint dual, up to ~15 % below the scipy minimum: a distance in that gap passes the "
